@@ -62,9 +62,13 @@ def _c_canonical_loop(f, L, allow_break=False):
     lv = f.strip(c["ch"][0])
     if f.k(lv) != "DeclRefExpr" or f.nodes[lv]["decl"]["id"] != vid:
         return None
-    inc = f.nodes[f.strip(n["inc"])]
-    iv = f.strip(inc["ch"][0]) if inc["k"] == "UnaryOperator" and inc["op"] == "++" else -1
-    if iv < 0 or f.k(iv) != "DeclRefExpr" or f.nodes[iv]["decl"]["id"] != vid:
+    # the step: `v++`, possibly accompanied by increments of other variables in a comma expression (`row++, k++`)
+    parts = [f.strip(n["inc"])]
+    while any(f.k(x) == "BinaryOperator" and f.nodes[x]["op"] == "," for x in parts):
+        parts = [f.strip(y) for x in parts for y in (f.nodes[x]["ch"] if f.k(x) == "BinaryOperator" and f.nodes[x]["op"] == "," else [x])]
+    steps = [x for x in parts if f.k(x) == "UnaryOperator" and f.nodes[x]["op"] == "++" and f.k(f.strip(f.nodes[x]["ch"][0])) == "DeclRefExpr" and
+             f.nodes[f.strip(f.nodes[x]["ch"][0])]["decl"]["id"] == vid]
+    if len(steps) != 1 or not all(f.k(x) == "UnaryOperator" and f.nodes[x]["op"] == "++" for x in parts):
         return None
     if not allow_break and any(f.k(x) in ("BreakStmt", "GotoStmt") for x in f.walk(n["body"])):
         return None
